@@ -45,7 +45,12 @@ def root_of(t: Any) -> tuple:
             return ("self",)
         if k in ("gvar", "cattr", "class", "clsparam", "module", "logger", "enum"):
             return ("global", show(t))
-        if k in ("lv", "la", "elem", "maybe", "ite", "bv"):
+        if k == "ite":
+            a, b = root_of(t[2]), root_of(t[3])
+            if a[0] == "fresh" and b[0] == "fresh":
+                return a
+            return b if a[0] == "fresh" else a  # the object may be the non-fresh alternative
+        if k in ("lv", "la", "elem", "maybe", "bv"):
             return ("unknown", show(t)[:80])
         if k == "const":
             return ("fresh", "const")
@@ -262,6 +267,16 @@ class Purity:
             for e in s.rets():
                 if e.value[0] in ("list", "dict", "set") or (e.value[0] == "comp" and e.value[1] in ("list", "dict", "set")):
                     fail(r, ctx, f, e.node, f"{kind} {q} returns a freshly built mutable {e.value[0]}: the cached object is shared by every caller")
+                if e.value[0] == "call" and e.value[1][0] in ("class", "clsparam"):
+                    cc = ctx.prog.classes.get(e.value[1][1])
+                    if cc is not None and not cc.is_enum() and not cc.frozen():
+                        fail(r, ctx, f, e.node, f"{kind} {q} returns a new {cc.name} object, which is mutable: the one cached instance is shared by "
+                                                f"every caller with the same arguments (across parses and threads)")
+            if rt is not None and rt[0] == "inst":
+                cc = ctx.prog.classes.get(rt[1])
+                if cc is not None and not cc.is_enum() and not cc.frozen() and not cc.is_exception():
+                    fail(r, ctx, f, f.node, f"{kind} {q} is declared to return the mutable class {cc.name}: a memo table would hand the same object to "
+                                            f"every caller")
             if f.lru_cached:
                 for p in f.params():
                     pt = ctx.ev.types.param_type(f, p)
